@@ -192,6 +192,8 @@ def spelled_cases(rng, tier):
         for a, b in pairs:
             out.append(persistcase([OP("register", cid), OP("setacl", cid, acl, sp=a), OP("delacl", cid, sp=b)], tok, reqs))
         out.append(persistcase([OP("register", cid), OP("setacl", cid, acl, sp=sps[0])], tok, reqs))
+        if tier == "quick" and len(out) % 2 == 0:
+            continue
         out.append(persistcase([OP("setacl", cid, acl, sp=sps[-1]), OP("register", "other"), OP("setacl", "other", [A("/*", "read")]),
                                 OP("delacl", cid, sp=sps[0]), OP("restart"), OP("setacl", cid, [A("/jobs", "read")], sp=sps[0])], tok, reqs))
     return out
